@@ -247,6 +247,20 @@ func c13Grid(tier string, emit func(*Config)) {
 // RunC13 sweeps the full forced-bet configuration grid.
 func RunC13(rep *explore.Report, tier string) {
 	rep.Set("rule", "full grid of seat counts x button x (ante, sb, bb, dealer blind) in {0,1,2,3,5}^4 with sb<=bb x dead-small-blind flag x per-seat bankrolls on the thresholds below/at/above each forced amount; each configuration is driven Start, ReadyForAll, [PayAnte], [PayBlinds] and compared with refForced; distinct_nontrivial = configurations whose forced bets were compared")
+	// scenes first, alone in the process (see scene.go)
+	before := rep.ViolationCount()
+	{
+		var cnt [4]int64
+		for _, c := range SceneGrid(tier) {
+			sweepOne(rep, c, &cnt)
+			rep.Add("scene_configurations", 1)
+		}
+	}
+	sceneCoverage(rep)
+	if rep.ViolationCount() > before {
+		rep.Cap("a scene configuration violated the property: the rest of the check was skipped")
+		return
+	}
 	workers := runtime.NumCPU()
 	ch := make(chan *Config, 1024)
 	var wg sync.WaitGroup
